@@ -333,7 +333,7 @@ def op_collapse(w, ev, slot):
 
 
 # =================================================================== merge ==
-def _merge_model(refs, modes, fams):
+def _merge_model(refs, modes, fams, has_md=None):
     """pairwise/k-way model merge. modes: (obs_mode, samp_mode) each 'u'/'i'.
     fams: (obs md fam, samp md fam) or None entries for 'no function'."""
     ids = []
@@ -365,12 +365,22 @@ def _merge_model(refs, modes, fams):
         a, b = refs[0], refs[1]
         out = []
         for i in ids[ax]:
+            # what the merge function is given is the operand's entry for
+            # that id: None only when the operand's axis has no metadata at
+            # all; an axis whose every entry is empty (observably the same
+            # table otherwise) hands over an empty mapping
             ma = None
-            if a.md[ax] is not None and i in a.ids[ax]:
-                ma = copy.deepcopy(a.md[ax][a.ids[ax].index(i)])
+            if i in a.ids[ax]:
+                if a.md[ax] is not None:
+                    ma = copy.deepcopy(a.md[ax][a.ids[ax].index(i)])
+                elif has_md and has_md[0][ax]:
+                    ma = {}
             mb = None
-            if b.md[ax] is not None and i in b.ids[ax]:
-                mb = copy.deepcopy(b.md[ax][b.ids[ax].index(i)])
+            if i in b.ids[ax]:
+                if b.md[ax] is not None:
+                    mb = copy.deepcopy(b.md[ax][b.ids[ax].index(i)])
+                elif has_md and has_md[1][ax]:
+                    mb = {}
             out.append(CB.mdf_rule(fam, ma, mb))
         md.append(out)
     return Ref(ids[0], ids[1], m, md[0], md[1])
@@ -411,7 +421,9 @@ def op_merge(w, ev, slot):
             partners = partners[:1]
             refs = refs[:2]
     fams = (None if both_none else fo, None if both_none else fs)
-    exp = _merge_model(refs, modes, fams)
+    has_md = [[t.real.metadata(axis=a) is not None for a in AXNAME]
+              for t in [slot] + partners[:1]]
+    exp = _merge_model(refs, modes, fams, has_md)
     if exp is None:
         expected = ModelError('empty intersection')
     else:
@@ -457,7 +469,7 @@ def op_merge(w, ev, slot):
                 tin = math.fsum(cells)
                 tout = math.fsum(e.m.ravel().tolist())
                 scale = math.fsum(abs(x) for x in cells)
-            except OverflowError:
+            except (OverflowError, ValueError):
                 tin = tout = scale = 0.0
             if abs(tin - tout) > 1e-9 * scale:
                 w.fail('merge.total', 'grand total %r, operands sum to %r'
@@ -535,7 +547,7 @@ def op_concat(w, ev, slot):
         try:
             tin = math.fsum(x for r in refs for x in r.m.ravel().tolist())
             tout = math.fsum(e.m.ravel().tolist())
-        except OverflowError:
+        except (OverflowError, ValueError):
             tin = tout = 0.0
         if tin != tout:
             w.fail('concat.total', 'grand total %r, operands sum to %r'
